@@ -226,6 +226,7 @@ UNITS += [
              Rw("                    },\n                ),\n", "                    },\n                },\n", why="map_or_else -> match (closing)"),
              Rw("for (i, id) in content.iter().enumerate() {", "let mut vi: usize = 0; let vclen = content.len(); for id in it3: content.iter() { let i = vi; proof { assert(it3.index@ < content@.len()); } vi = vi + 1;", why="enumerate() -> explicit exec counter (Verus has no iterator adapters)"),
              Rw("_ = packs.insert(", "let _ = packs.insert(", count=None, why="destructuring assignment `_ =` -> `let _ =`"),
+             Rw(r"BlobId::from\(\*\*id\)", "vBlobId_from_data(id)", regex=True, count=None, why="DataId -> BlobId (same bytes)"),
          ],
          contract="""
     ensures
